@@ -380,6 +380,7 @@ func (ls *LanceroSource) PrepareChannels() error {
 				index++
 				ls.chanNames[index] = fmt.Sprintf("chan%d", cnum)
 				ls.chanNumbers[index] = cnum
+				ls.subframeOffsets[index] = row // the feedback is read at the same row time as the error
 				ls.rowColCodes[index] = rcCode(row, col, device.nrows, device.ncols)
 				index++
 				cnum++
